@@ -6,6 +6,7 @@ during one call of the real ngo.api.optimize.
 """
 from __future__ import annotations
 
+import copy
 import io
 import os
 import sys
@@ -186,7 +187,7 @@ def install() -> None:
         else:
             rec.pass_unchanged[name] += 1
         rec.stages.append({"name": name, "iter": rec.outer_iterations, "stmts": after})
-        rec.stage_asts.append(list(prg_out))
+        rec.stage_asts.append([copy.deepcopy(s) for s in prg_out])  # passes edit statements in place later on
 
     orig_pre, orig_post, orig_exl = api.preprocess, api.postprocess, api.exline_arithmetic
 
@@ -249,7 +250,7 @@ def install() -> None:
                 else:
                     rec.pass_unchanged[trait] += 1
                 rec.stages.append({"name": trait, "iter": rec.outer_iterations, "stmts": after})
-                rec.stage_asts.append(list(out))
+                rec.stage_asts.append([copy.deepcopy(s) for s in out])
                 return out
 
             return execute
@@ -547,7 +548,7 @@ def run_optimize(prg: list, inp: list, out: list, traits: list[str], protected: 
     rec.in_preds = [(p.name, p.arity) for p in inp]
     rec.out_preds = [(p.name, p.arity) for p in out]
     rec.stages.append({"name": "source", "iter": 0, "stmts": _texts(prg)})
-    rec.stage_asts.append(list(prg))
+    rec.stage_asts.append([copy.deepcopy(s) for s in prg])
     old_stdout = sys.stdout
     stream = _CountingStream()
     CURRENT = rec
